@@ -18,7 +18,8 @@ import Flax.Model.NnxLoop
 import Flax.Proofs.NnxLoopVmapTop
 import Flax.Proofs.NnxLoopReject
 import Flax.Proofs.NnxLoopGrad
-import Flax.Proofs.NnxLoopScanLoop
+import Flax.Proofs.NnxLoopScanTop
+import Flax.Proofs.NnxLoopVmapConv
 import Flax.Proofs.LiftLoopAxes
 import Flax.Proofs.LiftLoopArr
 import Flax.Props.C14
@@ -168,6 +169,48 @@ theorem vmap_eq_per_index {α : Type} [Inhabited α] {inAxes outAxes : AxesSpec}
         (∀ m, axisSize = some m → m = n)) ∧
       vmapSpecN n outAxes body (ps.zip args) store = .ok res :=
   nnxVmap_sound h hwf houts
+
+/-! ### towards the converse: when does `nnx.vmap` reject? -/
+
+/-- **`to_tree` accepts exactly consistent aliasing.**  With a store holding every Variable: `to_tree` returns iff every
+occurrence of every Variable gets an axis from its argument's prefix (`allPrefixes` defined: no `No axis found`) and
+all occurrences of each Variable agree.  (→ is `accepted_aliasing_is_consistent`, ← is new: no spurious rejection.) -/
+theorem to_tree_accepts_iff {α : Type} [Inhabited α] (store : Store α) (pas : List (Prefix × Arg α))
+    (hst : ∀ pa ∈ pas, ∀ es, pa.2 = .node es → ∀ e ∈ es, (store.lookup e.id).isSome) :
+    (∃ pure, toTree store pas [] [] = .ok pure) ↔
+      ∃ npF, allPrefixes pas [] = .ok npF ∧ consistent npF = true := by
+  constructor
+  · rintro ⟨pure, h⟩
+    exact toTree_ok_consistent store pas [] [] pure rfl h
+  · rintro ⟨npF, h1, h2⟩
+    exact toTree_complete store pas [] [] npF h1 h2 hst
+
+/-- **No rejection before the calls.**  If the aliasing is consistent and, for index `i`, the reference values
+(`sliceEntry` of every reachable Variable, `sliceArr` of every array argument) are defined, then `to_tree` and
+jax.vmap's slicing succeed and the traced function *is* called at index `i` — on exactly those values.
+
+What can still make `nnx.vmap` reject after the calls, and is not proved to coincide with the reference being
+undefined: the function failing or dropping a Variable at some index; `out_axes` not matching the results (arity, no
+axis for a Variable of a fresh node, `StateAxes` on an array); jax's unbatchedness verdict for `None` state / results;
+`jnp.stack` refusing per-index values of different shapes; the common-size check of the mapped leaves.  Each of these
+makes `vmapSpecN` undefined too (it uses the same `body`, `splitOut`-free `collectOut`, `collectVal`), but the
+equivalence is only established by the correspondence run. -/
+theorem vmap_no_rejection_before_calls {α : Type} [Inhabited α] (store : Store α) (pas : List (Prefix × Arg α))
+    (npF : NodePrefixes) (hwf : WFArgs pas) (h1 : allPrefixes pas [] = .ok npF) (h2 : consistent npF = true)
+    (hst : ∀ pa ∈ pas, ∀ es, pa.2 = .node es → ∀ e ∈ es, (store.lookup e.id).isSome)
+    (i : Nat) (ins : Store α) (arrs : List (Arr α))
+    (hins : mapX (sliceEntry store i) (ownedAll pas []) = .ok ins)
+    (harrs : mapX (sliceArr i) (arrArgs pas) = .ok arrs) :
+    ∃ pure sl, toTree store pas [] [] = .ok pure ∧ mapX (sliceArg i) pure = .ok sl ∧
+      mergeAll sl [] = .ok ins ∧ arraysOf sl = arrs := by
+  obtain ⟨pure, hp⟩ := toTree_complete store pas [] [] npF h1 h2 hst
+  obtain ⟨sl, hsl⟩ := sliceArg_complete store i pas [] [] pure ins arrs hp hins harrs
+  obtain ⟨ins', e1, e2, e3⟩ := Flax.NnxLoop.vmap_call_sees_slices store i pas [] [] pure sl [] hwf hp hsl rfl
+  rw [hins] at e1
+  injection e1 with e1
+  rw [harrs] at e3
+  injection e3 with e3
+  exact ⟨pure, sl, hp, hsl, by simpa [e1] using e2, e3.symm⟩
 
 /-- state side of the above on its own: the caller's Variables end as `collectVal axis [per-index values]`, written
 in first-occurrence order; Variables not reachable from the arguments are untouched (`writeAll` only sets) -/
@@ -340,21 +383,60 @@ theorem scan_loop_threads_carry {α : Type} [Inhabited α] {body : Body α} {ca 
       CarryInv si.pure cfin fin ∧ All2 (YRel si.pure outPs) recs ys :=
   scan_loop_sim hwf hsi h
 
-/- Full statement aimed at (DESIGN.md `scan_eq_loop_nnx`):
-     whenever `nnxScan … = .ok res`, the reference `scanSpecN n reverse ca cout outPs body (ps.zip args) store` (Proofs/
-     NnxLoopSpec.lean: the loop above, then every axis Variable := stack by index of what the iterations left along its
-     axis, every carry Variable := what the last iteration left, every broadcast Variable := its original value, results
-     stacked by index along their out axes, the carry put back) returns the same `res`.
-   What is proved: everything up to and including the loop (`scan_loop_threads_carry`), i.e. same `n`, same order, every
-   call on the Python loop's values, carry threaded, broadcast constant, same final array carry, and the per-iteration
-   records of both sides related (`YRel`: the vectorised states `ScanFn` emitted are the vectorised route of the values the
-   iteration left; its results are the iteration's results after `to_tree`).
-   Missing: that `scanWriteBack` / `scanCollectOut` applied to related records compute `scanFinalEntry` / `collectOut`
-   (stack along 0 + `moveaxis(x, 0, axis)` per vectorised state, positional `popleft` of the three deques in
-   `_scan_merge_out`).  The leaf-level facts are there (`scan_moveaxis_slice_stack`, and the vmap analogue
-   `vmap_collect_lookup`); the positional bookkeeping between the j-th vectorised state and its filter group is not
-   done.  That part is tied to the code by the correspondence run only. -/
-theorem scan_eq_loop_nnx_partial {α : Type} [Inhabited α] {inAxes outAxes : AxesSpec} {length : Option Nat}
+/-- **What `_scan_merge_out` writes back** (the positional bookkeeping: `vectorized_states.popleft()` once per integer
+axis, stack along 0 + `moveaxis(x, 0, axis)`, `carry_states.popleft()` / `broadcast_states.popleft()` while walking
+`prefix.axes`, for every graph-node argument in order).  Given the values the iterations left (index order), the values
+the last processed iteration left and the original values: every reachable Variable is set, once, in first-occurrence
+order, to `scanFinalEntry` — axis `k`: `jnp.stack` by index of its per-iteration values along `k`; `Carry`: what the last
+iteration left; `None`: its original value (writes of the body to broadcast state are dropped: recorded finding). -/
+theorem scan_state_is_loop_state {α : Type} [Inhabited α] (store0 : Store α) (pas : List (Prefix × Arg α))
+    (si : ScanIn α) (hwf : WFArgs pas) (hs : scanSplitIn store0 pas [] [] = .ok si)
+    (r0 : Store α) (rrest : List (Store α)) (fin : Store α)
+    (partsRows : List (List (Option (List (State α) × List (State α)))))
+    (partsF : List (Option (List (State α) × List (State α))))
+    (hrows : mapX (fun st => mapX (scanSplitArgOut st) si.pure) (r0 :: rrest) = .ok partsRows)
+    (hF : mapX (scanSplitArgOut fin) si.pure = .ok partsF) (store store' : Store α)
+    (hwb : scanWriteBack (partsRows.map (fun parts => (parts.filterMap id).map (·.1))) si.pure
+      ((partsF.filterMap id).map (·.2)) si.bcastDeque store = .ok store') :
+    ∃ vals, mapX (scanFinalEntry store0 fin (r0 :: rrest)) (ownedAll pas []) = .ok vals ∧
+      store' = writeAll vals store :=
+  scan_write_back store0 pas [] [] si hwf hs r0 rrest fin partsRows partsF hrows hF store store' hwb
+
+/-- **`scan_eq_loop_nnx`.**  For every function, store, argument list (aliasing included), `in_axes` / `out_axes` (ints,
+`None`, `Carry`, `StateAxes` of arbitrary filters; single entries or tuples), `length`, `reverse`: whenever `nnx.scan`
+returns, the explicit Python loop `scanSpecN` (Proofs/NnxLoopSpec.lean) is defined for the same `n ≥ 1` iterations in
+the same processing order and returns the same final store and the same results.  `scanSpecN`: iteration `i` is `f` on
+`take(original, i, axis)` of every axis Variable, the original value of every `None` Variable and the value the
+iteration processed before left in every `Carry` Variable (and the array carry it returned); afterwards every axis
+Variable holds `jnp.stack` by index of what the iterations left along its axis, every carry Variable what the last
+iteration left, every broadcast Variable its original value; array results are stacked by index along their out axes,
+fresh graph nodes Variable by Variable under the out prefix, and the carry is put back among the results.
+
+Hypotheses: `hwf` — paths inside one graph node are distinct; `houts` — what a single trace guarantees about results (at
+every result position all iterations return the same kind of thing, fresh nodes with the same Variables and distinct
+paths).  `n` is the size of *every* scanned Variable and scanned array argument along its axis, and `length` if given. -/
+theorem scan_eq_loop_nnx {α : Type} [Inhabited α] {inAxes outAxes : AxesSpec} {length : Option Nat}
+    {reverse : Bool} {nOuts : Nat} {body : Body α} {args : List (Arg α)} {store : Store α}
+    {res : Store α × List (Out α)}
+    (h : nnxScan inAxes outAxes length reverse nOuts body args store = .ok res)
+    (hwf : ∀ ps, inAxes.expand args.length = .ok ps → WFArgs (ps.zip args))
+    (houts : ∀ ps n ca cout outPs fin recs, inAxes.expand args.length = .ok ps →
+      laxScanX n reverse (fun i => .ok i) (scanStepSpec body ca cout outPs store (ps.zip args)) (fun _ _ => true)
+        (initCarrySpec (arrArgs (ps.zip args)), store) = .ok (fin, recs) →
+      ∀ k col, column k (recs.map (·.2)) = .ok col → OutColWF col) :
+    ∃ cin cout ps ca outPs n,
+      scanSetup inAxes outAxes = .ok (cin, cout) ∧ inAxes.expand args.length = .ok ps ∧
+      carryArgOf cin args = .ok ca ∧ outPrefixes outAxes cout nOuts = .ok outPs ∧ 0 < n ∧
+      ((∀ ep ∈ ownedAll (ps.zip args) [], ∀ k, ep.2.at ep.1 = .ok (.axis k) →
+          ∃ v, store.lookup ep.1.id = some v ∧ Flax.LiftLoop.dimAt k v = .ok n) ∧
+        (∀ pa ∈ arrArgs (ps.zip args), ∀ k, pa.1 = .ax (.axis k) → Flax.LiftLoop.dimAt k pa.2 = .ok n) ∧
+        (∀ m, length = some m → m = n)) ∧
+      scanSpecN n reverse ca cout outPs body (ps.zip args) store = .ok res :=
+  nnxScan_sound h hwf houts
+
+/-- the loop part on its own (what `scan_eq_loop_nnx` is assembled from, together with `scan_state_is_loop_state`): the
+set-up passed, and the scan of `ScanFn` is the reference loop with related per-iteration records -/
+theorem scan_loop_of_nnx_scan {α : Type} [Inhabited α] {inAxes outAxes : AxesSpec} {length : Option Nat}
     {reverse : Bool} {nOuts : Nat} {body : Body α} {args : List (Arg α)} {store : Store α}
     {res : Store α × List (Out α)}
     (h : nnxScan inAxes outAxes length reverse nOuts body args store = .ok res)
@@ -367,7 +449,9 @@ theorem scan_eq_loop_nnx_partial {α : Type} [Inhabited α] {inAxes outAxes : Ax
         (initCarrySpec (arrArgs (ps.zip args)), store) = .ok (fin, recs) ∧
       CarryInv si.pure cfin fin ∧ All2 (YRel si.pure outPs) recs ys ∧
       scanWriteBack (ys.map (·.1)) si.pure cfin.2 si.bcastDeque store = .ok res.1 ∧
-      insertCarry cout ca fin.1 outs = .ok res.2 :=
+      (∃ y0 yt, ys = y0 :: yt ∧ mapX (scanOutAt (ys.map (·.2))) ((List.range y0.2.length).zip y0.2) = .ok outs) ∧
+      insertCarry cout ca fin.1 outs = .ok res.2 ∧
+      ∃ dims, scanDims si.pure = .ok dims ∧ Flax.LiftLoop.jaxLength length dims = .ok n :=
   nnxScan_loop h hwf
 
 /-- broadcast state is constant: the step function of the reference loop reads `None` Variables from the original
